@@ -78,7 +78,15 @@ func (g *c05TG) nodes(c *c05TChart, minDef, depth int, malformed bool) []c05Node
 					body = append(body, c05Node{K: "include", S: dn})
 				}
 			}
-			out = append(out, c05Node{K: "tpl", Body: body})
+			kind := "tpl"
+			if g.chance(3) && depth == 0 {
+				kind = "tpljson" // the text tpl returns, seen before the file's own "<no value>" replacement
+			}
+			if kind == "tpljson" {
+				out = append(out, c05Text(c05MarkC), c05Node{K: kind, Body: body}, c05Text(c05MarkD))
+			} else {
+				out = append(out, c05Node{K: kind, Body: body})
+			}
 		case k < 82:
 			p := []string{"Template", "Name"}
 			if (malformed || g.lint) && g.chance(3) {
@@ -331,7 +339,8 @@ func c05TreeCorpus() []any {
 			tf("templates/_h.tpl", def("h.a", c05Text("[set h.a]"))),
 			tf("templates/a.yaml", c05Node{K: "tpl", Body: []c05Node{def("h.a", c05Text("[tpl h.a]")), def("local", c05Text("[local]")), inc("h.a"), inc("local"),
 				{K: "tpl", Body: []c05Node{inc("local"), inc("h.a"), {K: "field", Path: []string{"Values", "missing"}}}}}}, c05Text(" after: "), inc("h.a"),
-				c05Text(" <no "), c05Text("value> "), c05Node{K: "field", Path: []string{"Values", "missing"}}),
+				c05Text(" <no "), c05Text("value> "), c05Node{K: "field", Path: []string{"Values", "missing"}},
+				c05Text(c05MarkC), c05Node{K: "tpljson", Body: []c05Node{c05Text("in tpl: "), {K: "field", Path: []string{"Values", "missing"}}, c05Text(" <no value>")}}, c05Text(c05MarkD)),
 			tf("templates/b.yaml", c05Node{K: "tpl", Body: []c05Node{def("gone", c05Text("x"))}}, inc("gone"))}}
 		out = append(out, c05TreeCase("tpl-scope", root, map[string]any{}, nil))
 		root2 := &c05TChart{Name: "p", Version: "0.1.0", Templates: root.Templates[:2]}
